@@ -18,7 +18,7 @@ import (
 // when the counter moved, the CPU clock of the last progress is updated; when an execution is running and
 // the process burnt more than `gap` of CPU time without a single gauge call, the work being done is unmetered:
 // the goroutine stacks are dumped and a breach is recorded (the executing goroutine turns it into a violation
-// when — if — the execution returns). If the gauge stays silent for 6*gap of CPU time in total the worker
+// when — if — the execution returns). If the gauge stays silent for 10*gap of CPU time in total the worker
 // prints the dump as a Go-style "panic:" line and exits, which the parent reports as a dead worker
 // (key "worker-died:panic: C unmetered work feature=<feature>"; the parent strips digits from the key).
 
@@ -87,7 +87,7 @@ func (s *supervisor) loop() {
 			feature, _ := s.feature.Load().(string)
 			s.pending.Store(&breach{Feature: feature, GapCPU: gap, Dump: string(buf[:n])})
 		}
-		if gap > 6*s.gap {
+		if gap > 10*s.gap {
 			feature, _ := s.feature.Load().(string)
 			buf := make([]byte, 1<<20)
 			n := runtime.Stack(buf, true)
